@@ -416,6 +416,23 @@ func beUint64(b []byte) uint64 {
 
 var storeRunN int
 
+// cleanObserved removes what an earlier run wrote into an operation (a replayed or corpus case carries it).
+func cleanObserved(o interface{}) {
+	m, ok := o.(map[string]interface{})
+	if !ok {
+		return
+	}
+	for _, k := range []string{"rc", "errtext", "t", "newids", "raced", "order", "deadlock", "faulted", "emitted", "tokAfter", "emittedNow", "overlap", "landed", "died"} {
+		delete(m, k)
+	}
+	if in, ok := m["inner"]; ok {
+		cleanObserved(in)
+	}
+	if rc, ok := m["race"].(map[string]interface{}); ok {
+		cleanObserved(rc["inner"])
+	}
+}
+
 // runStoreHist executes the history; returns the augmented input and the observations.
 func runStoreHist(c *Ctx, in M) (M, interface{}) {
 	storeRunN++
@@ -436,6 +453,9 @@ func runStoreHist(c *Ctx, in M) (M, interface{}) {
 	r.h.Store.NamespaceManager.AssertPrefixMappingForExpansion("http://t/") // ns4, ns5: namespaces a dataset may publish
 	r.h.Store.NamespaceManager.AssertPrefixMappingForExpansion("http://u/")
 	ops := getl(in, "ops")
+	for _, o := range ops {
+		cleanObserved(o)
+	}
 	r.times = make([]int64, len(ops))
 	obs := []interface{}{}
 	var panicked interface{}
@@ -451,7 +471,17 @@ func runStoreHist(c *Ctx, in M) (M, interface{}) {
 			case "createDs", "store", "txn", "deleteDs", "renameDs", "setPublicNs", "compact":
 				r.mutate(i, op)
 				if _, raced := op["race"]; raced && gets(op, "op") != "compact" {
-					obs = append(obs, M{"raced": getb(op, "raced"), "deadlock": getb(op, "deadlock")})
+					rcOf := func(o M) string {
+						if rc := gets(o, "rc"); rc != "" {
+							return rc
+						}
+						return "ok"
+					}
+					ro := M{"raced": getb(op, "raced"), "deadlock": getb(op, "deadlock"), "outer": rcOf(op), "inner": "-"}
+					if getb(op, "raced") && !getb(op, "deadlock") {
+						ro["inner"] = rcOf(op["race"].(map[string]interface{})["inner"].(map[string]interface{}))
+					}
+					obs = append(obs, ro)
 					if getb(op, "deadlock") {
 						return // two writers are parked for good: nothing after this can be trusted to return
 					}
